@@ -132,7 +132,7 @@ def force(ty, msg, body, c, stage):
     """Touch everything a consumer of the decoded message touches.  `stage` is a one-element list naming where we are
     (for the failure signature).  Returns a short description of what was decoded."""
     neighbor, neg = c.neighbor, c.neg
-    hdr = header_of(ty, body)
+    hdr = header_of(ty, body) if len(body) + 19 <= 65535 else b''
     enc = encoders()
     if ty == 2:
         if getattr(msg, 'IS_EOR', False):
@@ -182,7 +182,7 @@ def force(ty, msg, body, c, stage):
         for name, e in enc.items():
             stage[0] = 'api-' + name
             e.notification(neighbor, 'receive', msg, hdr, body, neg)
-        return 'notification'
+        return f'notification:{shutdown_class(msg)}'
     if ty == 4:
         str(msg)
         for name, e in enc.items():
@@ -195,15 +195,31 @@ def force(ty, msg, body, c, stage):
         for name, e in enc.items():
             stage[0] = 'api-' + name
             e.refresh(neighbor, 'receive', msg, hdr, body, neg)
-        return 'refresh'
+        return f'refresh:{int(msg.reserved)}'
     if ty == 6:
         stage[0] = 'force-operational'
         str(msg), msg.extensive()
         for name, e in enc.items():
             stage[0] = 'api-' + name
             e.operational(neighbor, 'receive', msg.category, msg, hdr, body, neg)
-        return 'operational'
+        return 'operational:%d' % {'advisory': 1, 'query': 2, 'counter': 3}.get(msg.category, 0)
     return 'other'
+
+
+def shutdown_class(msg):
+    """how Notification.data read the body (the classes of Model_Robust.dec_notification)"""
+    if (msg.code, msg.subcode) not in ((6, 2), (6, 4)):
+        return 0
+    data = bytes(msg.data) if not isinstance(msg.data, str) else msg.data.encode()
+    if not msg.raw_data:
+        return 1
+    if data == b'empty Shutdown Communication.':
+        return 2
+    if data.startswith(b'invalid Shutdown Communication (buffer underrun)'):
+        return 3
+    if data.startswith(b'invalid Shutdown Communication (too large)'):
+        return 4
+    return 5
 
 
 def reset_caches():
@@ -214,15 +230,16 @@ def reset_caches():
     AttributeCollection.previous = b''
 
 
-def observe(ty, body, c):
-    """-> ('D', what) | ('N', code, sub, stage) | ('X', stage, exception class, text)"""
+def observe(ty, body, c, view=True):
+    """-> ('D', what) | ('N', code, sub, stage) | ('X', stage, exception class, text)
+    view: hand the body over as a memoryview, which is what Connection.reader_async gives Protocol.read_message"""
     from exabgp.bgp.message import Message
     from exabgp.bgp.message.notification import Notify
 
     reset_caches()
     stage = ['unpack']
     try:
-        msg = Message.unpack(ty, bytes(body), c.neg)
+        msg = Message.unpack(ty, memoryview(bytes(body)) if view else bytes(body), c.neg)
         what = force(ty, msg, bytes(body), c, stage)
         return ('D', what)
     except Notify as exc:
@@ -369,3 +386,1252 @@ def observe_read_message(ty, body, ctx_name, ribin, api):
         connmod.asyncio.get_event_loop = saved
         conn.io = None
         proto.connection = None
+
+
+# ------------------------------------------------------------------------------- builders (wire format from the RFCs)
+
+
+class B:
+    """a message body under construction; remembers where its length / flag / type / mask octets are"""
+
+    def __init__(self):
+        self.b = bytearray()
+        self.marks = []  # (offset, size, kind) kind in len flag type mask
+
+    def mark(self, size, kind):
+        self.marks.append((len(self.b), size, kind))
+
+    def add(self, data, kind=None):
+        if kind:
+            self.mark(len(data), kind)
+        self.b += data
+        return self
+
+    def merge(self, other):
+        off = len(self.b)
+        self.marks += [(o + off, s, k) for o, s, k in other.marks]
+        self.b += other.b
+        return self
+
+
+def attr(flag, code, val, ext=None):
+    """one path attribute (RFC 4271 4.3) -> B"""
+    if ext is None or len(val) > 255:
+        ext = len(val) > 255 or bool(ext)
+    x = B()
+    x.add(bytes([(flag | 0x10) if ext else (flag & 0xEF)]), 'flag').add(bytes([code]), 'type')
+    x.add(struct.pack('!H', len(val)) if ext else bytes([len(val)]), 'len')
+    x.add(val)
+    return x
+
+
+def update(attrs=(), wd=(), nlri=()):
+    """UPDATE body from lists of B (attributes) and of B (prefixes) -> B"""
+    w, a, n = B(), B(), B()
+    for p in wd:
+        w.merge(p)
+    for p in attrs:
+        a.merge(p)
+    for p in nlri:
+        n.merge(p)
+    x = B()
+    x.add(struct.pack('!H', len(w.b)), 'len').merge(w)
+    x.add(struct.pack('!H', len(a.b)), 'len').merge(a)
+    x.merge(n)
+    return x
+
+
+def prefix4(rng, addpath, mask=None):
+    mask = rng.choice([0, 8, 16, 24, 24, 24, 25, 32, rng.randint(0, 32)]) if mask is None else mask
+    x = B()
+    if addpath:
+        x.add(struct.pack('!L', rng.choice([0, 1, 2, 0xFFFFFFFF, rng.getrandbits(32)])))
+    x.add(bytes([mask]), 'mask')
+    nb = (mask + 7) // 8
+    raw = bytearray(rng.getrandbits(8) for _ in range(nb))
+    if nb and mask % 8:
+        raw[-1] &= (0xFF << (8 - mask % 8)) & 0xFF
+    x.add(bytes(raw))
+    return x
+
+
+def prefix6(rng, addpath):
+    mask = rng.choice([0, 32, 48, 64, 64, 128, rng.randint(0, 128)])
+    x = B()
+    if addpath:
+        x.add(struct.pack('!L', rng.getrandbits(32)))
+    x.add(bytes([mask]), 'mask')
+    nb = (mask + 7) // 8
+    raw = bytearray(rng.getrandbits(8) for _ in range(nb))
+    if nb and mask % 8:
+        raw[-1] &= (0xFF << (8 - mask % 8)) & 0xFF
+    x.add(bytes(raw))
+    return x
+
+
+def asn_bytes(a, asn4):
+    return struct.pack('!L', a) if asn4 else struct.pack('!H', a)
+
+
+def as_path_value(rng, asn4, big=False, count=None):
+    segs = b''
+    for _ in range(rng.choice([1, 1, 2, 3]) if count is None else 1):
+        n = rng.choice([1, 2, 5, 255 if big else 3]) if count is None else count
+        asns = [rng.choice([1, 64512, 65535, 23456] + ([65536, 4200000000, 4294967295] if asn4 else [])) for _ in range(n)]
+        segs += bytes([rng.choice([2, 2, 2, 1]), n]) + b''.join(asn_bytes(a, asn4) for a in asns)
+    return segs
+
+
+def mandatory(rng, c, nh=True):
+    out = [attr(0x40, 1, bytes([rng.randrange(3)])), attr(0x40, 2, as_path_value(rng, c.asn4))]
+    if nh:
+        out.append(attr(0x40, 3, bytes([10, 0, 0, rng.randint(1, 254)])))
+    return out
+
+
+def optional_known(rng, c, code):
+    """a well-formed value for a recognised attribute, as its RFC defines it -> B"""
+    ap6 = False
+    try:
+        from exabgp.protocol.family import AFI, SAFI
+
+        ap6 = bool(c.neg.required(AFI.ipv6, SAFI.unicast))
+    except Exception:  # noqa: BLE001
+        pass
+    if code == 4:
+        return attr(0x80, 4, struct.pack('!L', rng.choice([0, 1, 0xFFFFFFFF, rng.getrandbits(32)])))
+    if code == 5:
+        return attr(0x40, 5, struct.pack('!L', rng.choice([0, 100, 0xFFFFFFFF])))
+    if code == 6:
+        return attr(0x40, 6, b'')
+    if code == 7:
+        return attr(0xC0, 7, asn_bytes(rng.choice([1, 65535] + ([4200000000] if c.asn4 else [])), c.asn4) + bytes([192, 0, 2, 1]))
+    if code == 8:
+        k = rng.choice([1, 2, 10, 63, 64, 200])
+        return attr(0xC0, 8, b''.join(struct.pack('!HH', rng.getrandbits(16), rng.getrandbits(16)) for _ in range(k)))
+    if code == 9:
+        return attr(0x80, 9, bytes([192, 0, 2, 9]))
+    if code == 10:
+        k = rng.choice([1, 2, 20])
+        return attr(0x80, 10, bytes(rng.getrandbits(8) for _ in range(4 * k)))
+    if code == 14:
+        k = rng.choice([1, 3, 40])
+        nl = b''.join(bytes(prefix6(rng, ap6).b) for _ in range(k))
+        return attr(0x80, 14, struct.pack('!HBB', 2, 1, 16) + bytes([0x20, 1, 0xd, 0xb8] + [0] * 11 + [1]) + b'\x00' + nl)
+    if code == 15:
+        k = rng.choice([1, 3, 40])
+        nl = b''.join(bytes(prefix6(rng, ap6).b) for _ in range(k))
+        return attr(0x80, 15, struct.pack('!HB', 2, 1) + nl)
+    if code == 16:
+        k = rng.choice([1, 2, 30])
+        return attr(0xC0, 16, b''.join(bytes([rng.choice([0x00, 0x01, 0x02, 0x03, 0x40, 0x43, 0x80]), rng.choice([2, 3, 0x0b, 6])])
+                                       + bytes(rng.getrandbits(8) for _ in range(6)) for _ in range(k)))
+    if code == 18:
+        return attr(0xC0, 18, struct.pack('!L', 4200000000) + bytes([192, 0, 2, 1]))
+    if code == 32:
+        k = rng.choice([1, 2, 20])
+        return attr(0xC0, 32, bytes(rng.getrandbits(8) for _ in range(12 * k)))
+    raise ValueError(code)
+
+
+KNOWN_OPTIONAL = [4, 5, 6, 7, 8, 9, 10, 14, 15, 16, 18, 32]
+REGISTERED_FLAG = {1: 0x40, 2: 0x40, 3: 0x40, 4: 0x80, 5: 0x40, 6: 0x40, 7: 0xC0, 8: 0xC0, 9: 0x80, 10: 0x80, 14: 0x80, 15: 0x80,
+                   16: 0xC0, 17: 0xC0, 18: 0xC0, 22: 0xC0, 23: 0xC0, 25: 0xC0, 26: 0x80, 29: 0x80, 32: 0xC0, 40: 0xC0}
+
+
+def registered_codes():
+    from exabgp.bgp.message.update.attribute.attribute import Attribute
+
+    return sorted({aid for aid, _ in Attribute.registered_attributes})
+
+
+def unknown_codes():
+    reg = set(registered_codes())
+    return [c for c in range(256) if c not in reg]
+
+
+def unknown_attr(rng, codes, vlen=None, transitive=None):
+    code = rng.choice(codes)
+    tr = rng.random() < 0.3 if transitive is None else transitive
+    flag = 0x80 | (0x40 if tr else 0) | (0x20 if tr and rng.random() < 0.5 else 0)
+    vlen = rng.choice([0, 0, 1, 4, 16, 255, 256, 300]) if vlen is None else vlen
+    return attr(flag, code, bytes(rng.getrandbits(8) for _ in range(vlen)))
+
+
+# ------------------------------------------------------------------------------- OPEN builders
+
+
+def cap_tlv(code, val):
+    x = B()
+    x.add(bytes([code]), 'type').add(bytes([len(val)]), 'len').add(val)
+    return x
+
+
+def open_body(rng, caps, style='one-per-param', asn=65001, hold=180, rid=b'\x0a\x00\x00\x02'):
+    """OPEN body (RFC 4271 4.2, RFC 5492, RFC 9072). caps: list of B (capability TLVs).
+    style: one-per-param | one-param (all capabilities in one parameter) | extended (RFC 9072)"""
+    params = B()
+    if style == 'one-param':
+        inner = B()
+        for c in caps:
+            inner.merge(c)
+        if inner.b:
+            params.add(bytes([2]), 'type').add(bytes([len(inner.b)]), 'len').merge(inner)
+    elif style == 'extended':
+        for c in caps:
+            params.add(bytes([2]), 'type').add(struct.pack('!H', len(c.b)), 'len').merge(c)
+    else:
+        for c in caps:
+            params.add(bytes([2]), 'type').add(bytes([len(c.b)]), 'len').merge(c)
+    x = B()
+    x.add(bytes([4]), 'type').add(struct.pack('!H', asn)).add(struct.pack('!H', hold)).add(rid)
+    if style == 'extended':
+        x.add(bytes([255])).add(bytes([255]), 'type').add(struct.pack('!H', len(params.b)), 'len').merge(params)
+    else:
+        x.add(bytes([len(params.b)]), 'len').merge(params)
+    return x
+
+
+def valid_caps(rng):
+    """every capability ExaBGP knows with a well-formed value, plus unassigned codes -> list of (name, B)"""
+    fams = [(1, 1), (1, 2), (1, 4), (1, 128), (1, 133), (2, 1), (2, 128), (25, 65), (25, 70), (16388, 71), (1, 73), (2, 73)]
+    out = []
+    for afi, safi in rng.sample(fams, rng.choice([1, 2, 4, len(fams)])):
+        out.append(('mp', cap_tlv(1, struct.pack('!HBB', afi, 0, safi))))
+    out.append(('refresh', cap_tlv(2, b'')))
+    out.append(('ext-nexthop', cap_tlv(5, b''.join(struct.pack('!HHH', 1, s, 2) for s in (1, 4, 128)))))
+    out.append(('ext-message', cap_tlv(6, b'')))
+    out.append(('graceful', cap_tlv(64, struct.pack('!H', 0x8000 | 120) + b''.join(struct.pack('!HBB', a, s, 0x80) for a, s in fams[:3]))))
+    out.append(('graceful-empty', cap_tlv(64, struct.pack('!H', 120))))
+    out.append(('asn4', cap_tlv(65, struct.pack('!L', rng.choice([65001, 4200000001])))))
+    out.append(('add-path', cap_tlv(69, b''.join(struct.pack('!HBB', a, s, rng.choice([1, 2, 3])) for a, s in fams[:4]))))
+    out.append(('enhanced-refresh', cap_tlv(70, b'')))
+    out.append(('hostname', cap_tlv(73, bytes([4]) + b'host' + bytes([7]) + b'example')))
+    out.append(('software', cap_tlv(75, bytes([6]) + b'v1.2.3')))
+    out.append(('paths-limit', cap_tlv(76, b''.join(struct.pack('!HBH', a, s, 10) for a, s in fams[:2]))))
+    out.append(('link-local', cap_tlv(77, b'')))
+    out.append(('multisession', cap_tlv(0x44, b'')))
+    out.append(('refresh-cisco', cap_tlv(128, b'')))
+    out.append(('multisession-cisco', cap_tlv(131, b'')))
+    out.append(('operational', cap_tlv(0xB9, b'')))
+    for code in rng.sample([3, 4, 7, 8, 9, 66, 67, 71, 72, 74, 100, 127, 129, 200, 254, 255, 0], 5):
+        out.append((f'unknown-{code}', cap_tlv(code, bytes(rng.getrandbits(8) for _ in range(rng.choice([0, 1, 4, 30]))))))
+    return out
+
+
+# ------------------------------------------------------------------------------- case generation
+
+
+def mk(ty, body, ctxn, klass, what, marks=None, model=False, **kw):
+    d = {'ty': ty, 'body': bytes(body), 'ctx': ctxn, 'klass': klass, 'what': what, 'marks': marks or [], 'model': model}
+    d.update(kw)
+    return d
+
+
+CTXS = ['as4-all', 'as2-few', 'ap-all', 'ext-all', 'ext-ap-as2']
+BASIC = [1, 4, 5, 6, 9]  # the attribute codes Model_Robust.vdec_basic decodes
+
+
+def gen_valid(rng, tier):
+    """valid, unusual messages of every type (each must be decoded)"""
+    cases = []
+    unk = unknown_codes()
+    scale = 1 if tier == 'quick' else 6
+    # --- UPDATE: unknown optional attributes, 1..4000 of them, within the negotiated size
+    for ctxn in CTXS:
+        c = ctx(ctxn)
+        room = c.msg_size - 19 - 4
+        counts = [1, 2, 3, 10, 100, 300, 332, 333, 334, 500, 900, 1000, 1200, room // 3]
+        if c.msg_size > 4096:
+            counts += [2000, 4000, 10000, room // 3]
+        for n in sorted(set(counts)):
+            if 3 * n > room:
+                continue
+            code = rng.choice(unk)
+            blk = bytes([0x80, code, 0]) * n
+            body = update([B().add(blk)]).b
+            cases.append(mk(2, body, ctxn, 'valid', 'unknown-optional-attributes', model=True, n=n, shape='unk3', code=code))
+        # the same after the mandatory attributes and with routes
+        for n in (50, 400, 1100):
+            if 3 * n + 60 > room:
+                continue
+            attrs = mandatory(rng, c) + [unknown_attr(rng, unk, 0, False) for _ in range(n)]
+            nl = [prefix4(rng, c.addpath) for _ in range(3)]
+            cases.append(mk(2, update(attrs, nlri=nl).b, ctxn, 'valid', 'routes-with-unknown-optional-attributes', n=n))
+        # distinct codes, transitive or not, values of every size
+        for _ in range(6 * scale):
+            k = rng.choice([1, 5, 30, 100])
+            attrs = mandatory(rng, c) + [unknown_attr(rng, unk) for _ in range(k)]
+            x = update(attrs, nlri=[prefix4(rng, c.addpath)])
+            if len(x.b) <= room + 4:
+                cases.append(mk(2, x.b, ctxn, 'valid', 'mixed-unknown-optional-attributes', x.marks))
+        # one unknown attribute filling the message (extended length)
+        cases.append(mk(2, update([attr(0xC0, rng.choice(unk), bytes(room - 4), True)]).b, ctxn, 'valid', 'maximal-size-unknown-attribute'))
+        # --- many NLRIs
+        for n, mask in ((1, 24), (100, 24), (1000, 24), (room - 100, 0), ((room - 60) // 5, 32), (10000, 24), (60000, 0)):
+            size = (n * (1 + (mask + 7) // 8 + (4 if c.addpath else 0)))
+            if size + 40 > room or n <= 0:
+                continue
+            nl = [prefix4(rng, c.addpath, mask) for _ in range(n)]
+            cases.append(mk(2, update(mandatory(rng, c), nlri=nl).b, ctxn, 'valid', 'many-nlri', n=n))
+            cases.append(mk(2, update([], wd=nl).b, ctxn, 'valid', 'many-withdrawn', n=n, model=(n <= 1000)))
+        # maximal size exactly: withdrawn routes fill the message
+        per = 4 + (4 if c.addpath else 0)
+        n = room // per
+        pad = room - n * per
+        nl = [prefix4(rng, c.addpath, 24) for _ in range(n - (1 if pad else 0))]
+        x = update([], wd=nl)
+        cases.append(mk(2, x.b, ctxn, 'valid', 'maximal-size-withdraw', n=n, model=(c.msg_size == 4096)))
+        # --- every recognised attribute with a well-formed value, alone and together
+        for _ in range(10 * scale):
+            opt = rng.sample(KNOWN_OPTIONAL, rng.choice([1, 2, 4, len(KNOWN_OPTIONAL)]))
+            attrs = mandatory(rng, c) + [optional_known(rng, c, k) for k in sorted(opt)]
+            if not c.asn4 and rng.random() < 0.5:
+                # RFC 6793: an OLD speaker's peer may carry 4-octet AS numbers in AS4_PATH, AS_TRANS in AS_PATH
+                k = rng.choice([1, 2, 3])
+                asp = bytes([2, k]) + b''.join(struct.pack('!H', 23456) for _ in range(k))
+                as4 = bytes([2, k]) + b''.join(struct.pack('!L', rng.choice([65536, 4200000000])) for _ in range(k))
+                attrs = [attr(0x40, 1, b'\x00'), attr(0x40, 2, asp), attr(0x40, 3, bytes([10, 0, 0, 1])), attr(0xC0, 17, as4)] + attrs[3:]
+            rng.shuffle(attrs)
+            x = update(attrs, nlri=[prefix4(rng, c.addpath) for _ in range(rng.choice([0, 1, 5]))],
+                       wd=[prefix4(rng, c.addpath) for _ in range(rng.choice([0, 0, 2]))])
+            cases.append(mk(2, x.b, ctxn, 'valid', 'recognised-attributes', x.marks))
+        # long AS_PATH (255 ASNs per segment, several segments), communities filling the message
+        asp = b''.join(bytes([2, 255]) + b''.join(asn_bytes(65000, c.asn4) for _ in range(255)) for _ in range(3))
+        cases.append(mk(2, update([attr(0x40, 1, b'\x00'), attr(0x40, 2, asp), attr(0x40, 3, bytes([10, 0, 0, 1]))], nlri=[prefix4(rng, c.addpath)]).b,
+                        ctxn, 'valid', 'long-as-path'))
+        k = (room - 100) // 4
+        cases.append(mk(2, update(mandatory(rng, c) + [attr(0xC0, 8, struct.pack('!HH', 65000, 1) * k)], nlri=[prefix4(rng, c.addpath)]).b,
+                        ctxn, 'valid', 'many-communities', n=k))
+        # End-of-RIB markers
+        cases.append(mk(2, bytes(4), ctxn, 'valid', 'eor-ipv4', model=True))
+        for afi, safi in [(int(a), int(s)) for a, s in c.neg.families if (int(a), int(s)) != (1, 1)][:12]:
+            cases.append(mk(2, update([attr(0x80, 15, struct.pack('!HB', afi, safi))]).b, ctxn, 'valid', 'eor-mp'))
+        # --- model domain: the five fixed-size attributes and unknown ones, with routes
+        for _ in range(25 * scale):
+            attrs = []
+            for code in rng.sample(BASIC, rng.choice([1, 2, 5])):
+                val = {1: bytes([rng.randrange(3)]), 4: bytes(4), 5: bytes([0, 0, 0, 100]), 6: b'', 9: bytes([1, 2, 3, 4])}[code]
+                attrs.append(attr(REGISTERED_FLAG[code], code, val, ext=rng.random() < 0.2))
+            attrs += [unknown_attr(rng, unk) for _ in range(rng.choice([0, 1, 3]))]
+            rng.shuffle(attrs)
+            x = update(attrs, nlri=[prefix4(rng, c.addpath) for _ in range(rng.choice([0, 1, 4]))],
+                       wd=[prefix4(rng, c.addpath) for _ in range(rng.choice([0, 0, 3]))])
+            cases.append(mk(2, x.b, ctxn, 'valid-framing', 'basic-attributes', x.marks, model=True))
+    # --- OPEN
+    for i in range(12 * scale):
+        caps = valid_caps(rng)
+        rng.shuffle(caps)
+        for style in ('one-per-param', 'one-param', 'extended'):
+            sel = [b for _, b in caps]
+            if style == 'one-per-param':
+                while sum(len(b.b) + 2 for b in sel) > 255:
+                    sel.pop()
+            elif style == 'one-param':
+                while sum(len(b.b) for b in sel) > 253:
+                    sel.pop()
+            x = open_body(rng, sel, style, asn=rng.choice([65001, 23456]), hold=rng.choice([0, 3, 180, 65535]))
+            cases.append(mk(1, x.b, rng.choice(CTXS + ['ms-few']), 'valid', f'open-capabilities-{style}', x.marks, model=True))
+    for style, n in (('one-per-param', 63), ('one-param', 126), ('extended', 300), ('extended', 1000)):
+        # hundreds of capabilities: unknown codes without value, route-refresh repeated, multiprotocol repeated
+        for kind in ('unknown', 'refresh', 'mp'):
+            one = {'unknown': lambda: cap_tlv(rng.choice([99, 100, 200]), b''), 'refresh': lambda: cap_tlv(2, b''),
+                   'mp': lambda: cap_tlv(1, struct.pack('!HBB', rng.choice([1, 2]), 0, rng.choice([1, 2, 4, 128])))}[kind]
+            k = n if kind != 'mp' or style == 'extended' else n // 3
+            x = open_body(rng, [one() for _ in range(k)], style)
+            if len(x.b) <= 4096 - 19:
+                cases.append(mk(1, x.b, 'as4-all', 'valid', f'open-{k}-{kind}-capabilities-{style}', x.marks, model=True, n=k))
+    cases.append(mk(1, open_body(rng, []).b, 'as4-all', 'valid', 'open-no-parameters', model=True))
+    cases.append(mk(1, open_body(rng, [], 'extended').b, 'as4-all', 'valid', 'open-extended-no-parameters', model=True))
+    big = open_body(rng, [cap_tlv(200, bytes(255)) for _ in range(15)], 'extended')
+    cases.append(mk(1, big.b, 'as4-all', 'valid', 'open-maximal-extended', big.marks, model=True))
+    # --- NOTIFICATION (never refused: RFC 4271 6.5)
+    for code in range(0, 9):
+        for sub in (0, 1, 2, 4, 8, 11, 255):
+            data = rng.choice([b'', b'\x00', bytes(rng.getrandbits(8) for _ in range(rng.choice([1, 2, 21, 200])))])
+            cases.append(mk(3, bytes([code, sub]) + data, rng.choice(CTXS), 'valid', 'notification', model=True))
+    for sub in (2, 4):
+        for text in (b'', b'\x00', b'\x04shut', b'\x05shut', b'\x04shut-trailing', b'\x80' + bytes([65]) * 128, b'\x81' + bytes([65]) * 129,
+                     b'\xff' + bytes([65]) * 255, b'\x02\xff\xfe', b'\x06\xe2\x82\xac\xe2\x82\xac', b'\x03a\nb', bytes([200]) + bytes(10)):
+            cases.append(mk(3, bytes([6, sub]) + text, rng.choice(CTXS), 'valid', 'notification-shutdown', [(2, 1, 'len')], model=True))
+    cases.append(mk(3, bytes([6, 2]) + bytes([128]) + bytes([66]) * (4096 - 19 - 3), 'as4-all', 'valid', 'notification-maximal', model=True))
+    # --- KEEPALIVE
+    cases.append(mk(4, b'', 'as4-all', 'valid', 'keepalive', model=True))
+    # --- ROUTE-REFRESH: RFC 2918 (reserved octet ignored by the receiver), RFC 7313 (subtypes 1, 2; others ignored)
+    for afi, safi in ((1, 1), (2, 1), (1, 128), (0, 0), (65535, 255), (25, 70)):
+        for res in (0, 1, 2):
+            cases.append(mk(5, struct.pack('!HBB', afi, res, safi), rng.choice(CTXS), 'valid', 'refresh', model=True))
+    for res in (3, 99, 255):
+        cases.append(mk(5, struct.pack('!HBB', 1, res, 1), 'as4-all', 'valid', 'refresh-unknown-subtype', model=True))
+    # nothing above may exceed the negotiated message size (it would not be a valid message)
+    return [x for x in cases if len(x['body']) + 19 <= ctx(x['ctx']).msg_size]
+
+
+def gen_boundary(rng, tier):
+    """every registered attribute with boundary lengths; OPERATIONAL; unknown types: decoded or refused with a
+    defined code, nothing else (validity is not claimed)"""
+    cases = []
+    lens = [0, 1, 2, 3, 4, 5, 6, 7, 8, 9, 11, 12, 13, 16, 17, 20, 21, 24, 32, 33, 255, 256, 257]
+    fam_heads = [struct.pack('!HB', a, s) for a in (1, 2, 25, 16388, 0, 999) for s in (1, 2, 4, 5, 65, 70, 71, 72, 73, 85, 128, 132, 133, 134, 0)]
+    for code in registered_codes():
+        for ln in lens:
+            for variant in range(2 if tier == 'quick' else 6):
+                ctxn = rng.choice(CTXS)
+                c = ctx(ctxn)
+                val = bytes(rng.getrandbits(8) for _ in range(ln))
+                if variant % 2 and ln >= 3 and code in (14, 15, 29):
+                    val = rng.choice(fam_heads) + val[3:]
+                if variant % 2 and code in (14,) and ln >= 5:
+                    nh = rng.choice([0, 4, 12, 16, 24, 32, ln - 5, 255])
+                    val = val[:3] + bytes([nh]) + val[4:]
+                flag = REGISTERED_FLAG.get(code, 0xC0)
+                x = update(mandatory(rng, c) + [attr(flag, code, val, ext=(ln > 255) or rng.random() < 0.1)] if code > 3 else
+                           [attr(flag, code, val, ext=(ln > 255))], nlri=[prefix4(rng, c.addpath)])
+                cases.append(mk(2, x.b, ctxn, 'boundary', f'attribute-{code}-length-{ln}', x.marks, model=(code in BASIC)))
+    # OPERATIONAL (draft): header and every registered subtype at its size boundaries
+    for what in list(range(0, 16)) + [0xFFFE, 0xFFFF, 300]:
+        for total in (0, 1, 3, 4, 5, 6, 7, 8, 11, 14, 15, 16, 18, 19, 20, 40):
+            for dl in (-1, 0, 1, 'max'):
+                if total < 4:
+                    body = bytes(rng.getrandbits(8) for _ in range(total))
+                else:
+                    ln = 0xFFFF if dl == 'max' else max(0, total - 4 + dl)
+                    body = struct.pack('!HH', what, ln) + bytes(rng.getrandbits(8) for _ in range(total - 4))
+                cases.append(mk(6, body, rng.choice(CTXS), 'boundary', f'operational-{what}', [(2, 2, 'len')] if total >= 4 else [], model=True))
+    big = struct.pack('!HH', 1, 4000) + struct.pack('!HB', 1, 1) + bytes([65]) * 3997
+    cases.append(mk(6, big, 'as4-all', 'boundary', 'operational-advisory-maximal', model=True))
+    # unknown message types: Bad Message Type whatever the body
+    for ty in (0, 7, 8, 100, 127, 128, 200, 251, 252, 253, 254, 255):
+        for n in (0, 1, 4, 30):
+            cases.append(mk(ty, bytes(rng.getrandbits(8) for _ in range(n)), 'as4-all', 'boundary', 'unknown-type', model=True))
+    # KEEPALIVE with a body, ROUTE-REFRESH of every other length
+    for n in (1, 2, 4, 100):
+        cases.append(mk(4, bytes(n), 'as4-all', 'boundary', 'keepalive-with-body', model=True))
+    for n in (0, 1, 2, 3, 5, 8, 100):
+        cases.append(mk(5, bytes(n), 'as4-all', 'boundary', 'refresh-length', model=True))
+    return cases
+
+
+def corrupt(rng, base, tier):
+    """structured corruptions of one valid case -> list of cases"""
+    out = []
+    body, marks = base['body'], base['marks']
+    if len(body) > 2000:
+        return out
+
+    def put(b, what):
+        out.append(mk(base['ty'], b, base['ctx'], 'corrupt', what, model=base['model'], of=base['what']))
+
+    lens = [m for m in marks if m[2] == 'len']
+    if tier == 'quick' and len(lens) > 6:
+        lens = rng.sample(lens, 6)
+    for off, size, _ in lens:
+        cur = int.from_bytes(body[off:off + size], 'big')
+        top = (1 << (8 * size)) - 1
+        for v in {max(cur - 1, 0), min(cur + 1, top), 0, top, cur ^ 0x80 if size == 1 else cur ^ 0x8000}:
+            if v != cur:
+                put(body[:off] + v.to_bytes(size, 'big') + body[off + size:], f'length@{off}={v}')
+    others = [m for m in marks if m[2] in ('flag', 'type', 'mask')]
+    if len(others) > (4 if tier == 'quick' else 40):
+        others = rng.sample(others, 4 if tier == 'quick' else 40)
+    for off, size, kind in others:
+        bits = range(8) if tier != 'quick' else rng.sample(range(8), 3)
+        for bit in bits:
+            put(body[:off] + bytes([body[off] ^ (1 << bit)]) + body[off + 1:], f'{kind}@{off}^bit{bit}')
+        if kind == 'mask':
+            for v in (33, 129, 255):
+                put(body[:off] + bytes([v]) + body[off + 1:], f'mask@{off}={v}')
+    if len(body) <= 80:
+        for cut in range(len(body)):
+            put(body[:cut], f'truncated@{cut}')
+    else:
+        for cut in rng.sample(range(len(body)), 6):
+            put(body[:cut], f'truncated@{cut}')
+    for _ in range(3):
+        if body:
+            i = rng.randrange(len(body))
+            put(body[:i] + body[i + 1:], f'deleted@{i}')
+            put(body[:i] + bytes([rng.getrandbits(8)]) + body[i:], f'inserted@{i}')
+            put(body[:i] + bytes([rng.getrandbits(8)]) + body[i + 1:], f'replaced@{i}')
+    return out
+
+
+def gen_random(rng, tier):
+    cases = []
+    n = 2500 if tier == 'quick' else 60000
+    for _ in range(n):
+        ty = rng.choice([1, 2, 2, 2, 3, 5, 6, 6, rng.randrange(256)])
+        ln = rng.choice([0, 1, 2, 3, 4, 5, 8, 10, 11, 12, 16, 23, 40, 100, 300, rng.randint(0, 600)])
+        body = bytes(rng.getrandbits(8) for _ in range(ln))
+        style = rng.random()
+        if ty == 2 and style < 0.5 and ln >= 4:
+            # random bytes behind plausible section lengths
+            la = rng.randint(0, ln - 4)
+            body = b'\x00\x00' + struct.pack('!H', la) + body[4:]
+        elif ty == 1 and style < 0.5 and ln >= 10:
+            body = bytes([4]) + body[1:9] + bytes([min(ln - 10, 255)]) + body[10:]
+        elif ty == 6 and style < 0.7 and ln >= 4:
+            body = struct.pack('!HH', rng.randrange(12), ln - 4) + body[4:]
+        cases.append(mk(ty, body, rng.choice(CTXS), 'random', 'random-bytes', model=(ty != 2 and ty != 1)))
+    # random TLV soup for UPDATE in the model domain (basic + unknown codes, any flags, any lengths)
+    unk = unknown_codes()
+    for _ in range(600 if tier == 'quick' else 12000):
+        ctxn = rng.choice(CTXS)
+        parts = b''
+        for _ in range(rng.choice([0, 1, 2, 3, 5, 8])):
+            code = rng.choice(BASIC + BASIC + unk[:6] + [rng.choice(unk)])
+            flag = rng.choice([0x40, 0x80, 0xC0, 0xE0, 0x50, 0x90, 0xD0, 0x00, rng.getrandbits(8)])
+            vl = rng.choice([0, 0, 1, 1, 2, 3, 4, 4, 4, 5, 8])
+            val = bytes(rng.choice([0, 1, 2, 3, rng.getrandbits(8)]) for _ in range(vl))
+            dl = vl + rng.choice([0, 0, 0, 0, 1, -1, 3, 200])
+            dl = max(0, dl)
+            parts += bytes([flag, code]) + (struct.pack('!H', dl) if flag & 0x10 else bytes([dl & 0xFF])) + val
+        wd = bytes(rng.choice([0, 8, 24, 32, 33, rng.getrandbits(8)]) for _ in range(rng.choice([0, 0, 0, 1, 2, 5])))
+        nl = bytes(rng.choice([0, 8, 24, 32, 33, rng.getrandbits(8)]) for _ in range(rng.choice([0, 0, 1, 2, 5, 9])))
+        body = struct.pack('!H', len(wd)) + wd + struct.pack('!H', len(parts)) + parts + nl
+        if rng.random() < 0.15 and body:
+            body = body[: rng.randrange(len(body))]
+        cases.append(mk(2, body, ctxn, 'random', 'random-attribute-soup', model=True))
+    return cases
+
+
+def tlv_soup(rng, tsize, lsize, depth=0, budget=60):
+    """random nested TLVs (type of tsize octets, length of lsize octets), lengths mostly consistent"""
+    out = b''
+    for _ in range(rng.choice([0, 1, 1, 2, 3, 6])):
+        if depth < 2 and rng.random() < 0.3:
+            val = tlv_soup(rng, rng.choice([1, 2]), rng.choice([1, 2]), depth + 1, budget // 2)
+        else:
+            val = bytes(rng.choice([0, 1, 2, 3, 4, 16, 32, 128, 255, rng.getrandbits(8)]) for _ in range(rng.choice([0, 1, 2, 3, 4, 6, 7, 8, 12, 16, 17, 20, 32, budget])))
+        ty = rng.choice([0, 1, 2, 3, 4, 5, 6, 7, 8, 9, 10, 11, 12, 13, 14, 15, 256, 257, 258, 259, 263, 264, 265, 512, 513, 514, 515, 516, 517, 518,
+                         1024, 1025, 1026, 1027, 1028, 1029, 1030, 1034, 1035, 1036, 1038, 1088, 1089, 1092, 1093, 1094, 1095, 1096, 1097,
+                         1098, 1099, 1100, 1105, 1106, 1107, 1114, 1115, 1116, 1117, 1118, 1122, 1152, 1153, 1155, 1156, 1157, 1158, 1159,
+                         1161, 1162, 1170, 1171, 1172, 1173, 1174, 1250, 1251, 1252, rng.getrandbits(16)]) & ((1 << (8 * tsize)) - 1)
+        ln = len(val) + rng.choice([0, 0, 0, 0, 0, 0, 1, -1, 2, 200])
+        ln = max(0, min(ln, (1 << (8 * lsize)) - 1))
+        out += ty.to_bytes(tsize, 'big') + ln.to_bytes(lsize, 'big') + val
+    return out
+
+
+def nlri_soup(rng, safi):
+    out = b''
+    for _ in range(rng.choice([1, 1, 2, 3, 8])):
+        kind = rng.random()
+        if safi in (133, 134) and kind < 0.8:  # flowspec: length then components (type, operator/value bytes)
+            comp = b''
+            for _ in range(rng.choice([1, 2, 4])):
+                t = rng.choice([1, 2, 3, 4, 5, 6, 7, 8, 9, 10, 11, 12, 13, 0, 14, 200])
+                if t in (1, 2):
+                    m = rng.choice([0, 8, 24, 32, 33, 64, 128, 129, 255])
+                    comp += bytes([t, m]) + (bytes([rng.choice([0, 8, 64, 200])]) if rng.random() < 0.4 else b'') + bytes(rng.getrandbits(8) for _ in range(rng.choice([(m + 7) // 8, 0, 1, 3])))
+                else:
+                    for i in range(rng.choice([1, 2, 5])):
+                        op = rng.choice([0x01, 0x81, 0x11, 0x91, 0x21, 0xA1, 0x31, 0xB1, 0x03, 0x83, 0x00, 0x80, 0xC0, rng.getrandbits(8)])
+                        comp += (bytes([t]) if i == 0 else b'') + bytes([op]) + bytes(rng.getrandbits(8) for _ in range(rng.choice([1 << ((op >> 4) & 3), 0, 1])))
+            ln = len(comp) + rng.choice([0, 0, 0, 1, -1])
+            out += (bytes([max(0, ln)]) if ln < 240 else struct.pack('!H', 0xF000 | (ln & 0xFFF))) + comp
+        elif safi in (70, 85, 5, 132) and kind < 0.8:  # route type, length, value
+            val = bytes(rng.choice([0, 1, 32, 48, 128, rng.getrandbits(8)]) for _ in range(rng.choice([0, 1, 8, 9, 12, 17, 21, 23, 25, 33, 34, 35, 40, 60])))
+            out += bytes([rng.choice([1, 2, 3, 4, 5, 6, 7, 8, 9, 10, 11, 0, 200]), max(0, len(val) + rng.choice([0, 0, 0, 1, -1]))]) + val
+        elif safi in (71, 72) and kind < 0.8:  # BGP-LS NLRI: type(2) length(2) protocol-id identifier(8) descriptors
+            val = bytes([rng.choice([1, 2, 3, 4, 5, 6, 7, 0, 200])]) + bytes(8) + tlv_soup(rng, 2, 2)
+            out += struct.pack('!HH', rng.choice([1, 2, 3, 4, 6, 0, 99]), max(0, len(val) + rng.choice([0, 0, 0, 1, -1, 50]))) + val
+        elif safi == 65 and kind < 0.8:  # VPLS: length(2) rd(8) ve(2) offset(2) size(2) base(3)
+            val = bytes(rng.getrandbits(8) for _ in range(rng.choice([17, 17, 16, 18, 0, 5])))
+            out += struct.pack('!H', max(0, len(val) + rng.choice([0, 0, 1, -1]))) + val
+        else:  # (path-id) mask [labels] [rd] prefix
+            m = rng.choice([0, 8, 24, 32, 33, 48, 56, 64, 88, 96, 112, 120, 128, 152, 184, 216, 255, rng.getrandbits(8)])
+            body = bytes(rng.choice([0, 0, 1, 0x80, 0x10, rng.getrandbits(8)]) for _ in range(rng.choice([(m + 7) // 8, (m + 7) // 8, 0, 3, 4, 11, 12])))
+            out += (struct.pack('!L', rng.getrandbits(32)) if rng.random() < 0.3 else b'') + bytes([m]) + body
+    return out
+
+
+def gen_deep(rng, tier):
+    """UPDATEs whose MP attributes and structured optional attributes carry nested TLVs: decoded or refused, nothing else"""
+    cases = []
+    fams = [(1, 1), (1, 2), (1, 4), (1, 5), (1, 73), (1, 85), (1, 128), (1, 132), (1, 133), (1, 134), (2, 1), (2, 2), (2, 4), (2, 5), (2, 73), (2, 85),
+            (2, 128), (2, 133), (2, 134), (25, 65), (25, 70), (16388, 71), (16388, 72), (1, 0), (3, 1), (25, 1)]
+    n = 2500 if tier == 'quick' else 60000
+    for _ in range(n):
+        ctxn = rng.choice(CTXS)
+        c = ctx(ctxn)
+        attrs = mandatory(rng, c, nh=rng.random() < 0.5)
+        which = rng.random()
+        afi, safi = rng.choice(fams)
+        if which < 0.45:
+            nhl = rng.choice([0, 4, 12, 16, 24, 32, 48, 5, rng.getrandbits(8)])
+            nh = bytes(rng.choice([0, 0xfe, 0x80, rng.getrandbits(8)]) for _ in range(rng.choice([nhl, nhl, nhl, max(0, nhl - 1)])))
+            val = struct.pack('!HBB', afi, safi, nhl) + nh + bytes([rng.choice([0, 0, 0, 1, 3])]) + nlri_soup(rng, safi)
+            attrs.append(attr(0x80, 14, val, ext=rng.random() < 0.3))
+        elif which < 0.6:
+            attrs.append(attr(0x80, 15, struct.pack('!HB', afi, safi) + nlri_soup(rng, safi)))
+        elif which < 0.7:
+            attrs.append(attr(0xC0, 40, tlv_soup(rng, 1, 2)))          # PREFIX_SID: type(1) length(2)
+        elif which < 0.8:
+            attrs.append(attr(0x80, 29, tlv_soup(rng, 2, 2)))          # BGP-LS attribute: type(2) length(2)
+        elif which < 0.87:
+            attrs.append(attr(0xC0, 23, tlv_soup(rng, 2, 2)))          # TUNNEL_ENCAP: type(2) length(2), sub-TLVs
+        elif which < 0.92:
+            attrs.append(attr(0xC0, 22, bytes([rng.getrandbits(8), rng.choice([0, 1, 2, 3, 4, 5, 6, 7, 200])]) + bytes(rng.getrandbits(8) for _ in range(rng.choice([0, 2, 3, 7, 11, 19, 23])))))
+        elif which < 0.96:
+            attrs.append(attr(0x80, 26, tlv_soup(rng, 1, 2)))          # AIGP: type(1) length(2)
+        else:
+            attrs.append(attr(0xC0, rng.choice([16, 25, 32, 8]), tlv_soup(rng, 1, 1)))
+        if rng.random() < 0.2:
+            attrs.append(optional_known(rng, c, rng.choice(KNOWN_OPTIONAL)))
+        rng.shuffle(attrs)
+        x = update(attrs, nlri=[prefix4(rng, c.addpath)] if rng.random() < 0.3 else [])
+        cases.append(mk(2, x.b, ctxn, 'deep', f'nested-{afi}-{safi}' if which < 0.6 else 'nested-attribute'))
+    return cases
+
+
+# ------------------------------------------------------------------------------- model evaluation (vm_compute)
+
+COQ_HEADER = """From Coq Require Import ZArith Bool List.
+From ExaV Require Import gen.Gen_ParseShape model.Model_Robust.
+From ExaV Require model.Model_Open.
+Import ListNotations. Open Scope Z_scope.
+(* outcome of Capability.unpack: the capability value decoders of the C07 model *)
+Definition capv (c : Z) (d : list Z) : option (Z * Z) :=
+  match ExaV.model.Model_Open.parse_cap c d with
+  | ExaV.model.Model_Open.Ok _ => None
+  | ExaV.model.Model_Open.Notify a b => Some (a, b)
+  end.
+Definition cls (ty : Z) (o : outcome) : Z * Z * Z :=
+  match o with
+  | Decoded t => (0, if (ty =? 3) || (ty =? 5) || (ty =? 6) then t else 0, 0)
+  | Refused c s => (1, c, s)
+  | PyError k => if k =? K_UNMODELLED then (3, 0, 0) else (2, 0, 0)
+  end.
+Definition eq3 (a b : Z * Z * Z) : bool :=
+  match a, b with (a1, a2, a3), (b1, b2, b3) => (a1 =? b1) && (a2 =? b2) && (a3 =? b3) end.
+Definition run (c : Z * bool * nat * list Z) : Z * Z * Z :=
+  match c with (ty, ap, limit, body) => cls ty (dec_message vdec_basic capv ap limit ty body) end.
+(* per case: 0 = same as the implementation, 1 = differs, 2 = outside the modelled value decoders *)
+Definition verdict (ce : (Z * bool * nat * list Z) * (Z * Z * Z)) : Z :=
+  let r := run (fst ce) in
+  if fst (fst r) =? 3 then 2 else if eq3 r (snd ce) then 0 else 1.
+Definition unk3 (code : Z) (n : nat) : list Z :=
+  let blk := concat (repeat [128; code; 0] n) in
+  [0; 0; Z.of_nat (3 * n) / 256; Z.of_nat (3 * n) mod 256] ++ blk.
+Definition shape (b : list Z) : Z * Z * Z :=
+  let r := walk vdec_basic b in
+  (Z.of_nat (w_steps r), Z.of_nat (w_depth r),
+   match w_out r with WPyError _ => 1 | _ => 0 end).
+"""
+
+
+def impl_class(case, o):
+    """the implementation's outcome as the model words it: (class, code|tag, sub)"""
+    ty = case['ty']
+    if o[0] == 'N' and o[3] == 'unpack':
+        return (1, o[1], o[2])
+    if o[0] == 'X' and o[1] == 'unpack':
+        return (2, 0, 0)
+    tag = 0
+    if o[0] == 'D' and ty in (3, 5, 6) and ':' in o[1]:
+        tag = int(o[1].split(':')[1])
+    return (0, tag, 0)
+
+
+def coq_body(case):
+    if case.get('shape') == 'unk3':
+        return f'(unk3 {case["code"]} (Z.to_nat {case["n"]}))'
+    return zbytes(case['body'])
+
+
+def model_limit(case, recursive):
+    """stack frames the model is told are left: below what the harness really has for small blocks, the interpreter's
+    recursion limit for large ones (only the side of the threshold matters; the band in between is not compared)"""
+    return 1000 if case.get('n', 0) >= 1000 else 700
+
+
+def evaluate_model(run, cases, outs, tag):
+    """-> (ok, verdicts per case (0 same, 1 differs, 2 not modelled), logs)"""
+    order = sorted(range(len(cases)), key=lambda i: -len(cases[i]['body']))
+    shards, cur, size = [], [], 0
+    for i in order:
+        cur.append(i)
+        size += (40 if cases[i].get('shape') == 'unk3' else len(cases[i]['body'])) + 12
+        if size > 45000 or len(cur) >= 1500:
+            shards.append(cur)
+            cur, size = [], 0
+    if cur:
+        shards.append(cur)
+
+    def defs(idx):
+        items = []
+        for i in idx:
+            c = cases[i]
+            e = impl_class(c, outs[i])
+            ap = 'true' if ctx(c['ctx']).addpath else 'false'
+            items.append(f'(({c["ty"]}, {ap}, (Z.to_nat {model_limit(c, None)}), {coq_body(c)}), ({e[0]}, {e[1]}, {e[2]}))')
+        return ('Definition cases : list ((Z * bool * nat * list Z) * (Z * Z * Z)) := [' + ';\n'.join(items)
+                + '].\nEval vm_compute in (map verdict cases).\n')
+
+    res = common.eval_cases(COQ_HEADER, defs, shards, tag, timeout=900)
+    verdicts = [None] * len(cases)
+    logs = []
+    ok = True
+    for shard, (rc, out, parsed) in zip(shards, res):
+        if rc != 0 or not parsed:
+            ok = False
+            logs.append(out[-1500:])
+            continue
+        vals = [int(x) for x in __import__('re').findall(r'-?\d+', parsed[0])]
+        if len(vals) != len(shard):
+            ok = False
+            logs.append(f'expected {len(shard)} verdicts, got {len(vals)}: {out[-500:]}')
+            continue
+        for i, v in zip(shard, vals):
+            verdicts[i] = v
+    return ok, verdicts, logs
+
+
+class CallProbe:
+    """counts the calls of AttributeCollection.parse and their deepest nesting (wrapper installed from outside)"""
+
+    def __enter__(self):
+        from exabgp.bgp.message.update.attribute import AttributeCollection
+
+        self.k = AttributeCollection
+        self.orig = AttributeCollection.parse
+        self.calls = self.depth = self.max = 0
+        probe = self
+        orig = self.orig
+
+        def parse(self_, data, negotiated):
+            probe.calls += 1
+            probe.depth += 1
+            probe.max = max(probe.max, probe.depth)
+            try:
+                return orig(self_, data, negotiated)
+            finally:
+                probe.depth -= 1
+
+        AttributeCollection.parse = parse
+        return self
+
+    def __exit__(self, *a):
+        self.k.parse = self.orig
+
+
+def shape_correspondence(run, blocks, recursive):
+    """calls / depth of the real walk against w_steps / w_depth of the model on attribute blocks"""
+    from exabgp.bgp.message.update.attribute import AttributeCollection
+    from exabgp.bgp.message.notification import Notify
+
+    c = ctx('as4-all')
+    impl = []
+    for blk in blocks:
+        reset_caches()
+        with CallProbe() as p:
+            try:
+                AttributeCollection().parse(bytes(blk), c.neg)
+            except Notify:
+                pass
+            except Exception:  # noqa: BLE001 - judged elsewhere
+                pass
+        impl.append((p.calls, p.max))
+    body = 'Definition blocks : list (list Z) := [' + ';\n'.join(zbytes(b) for b in blocks) + '].\nEval vm_compute in (map shape blocks).\n'
+    rc, out = common.coq_eval_file(COQ_HEADER, body, 'c03_shape', 600)
+    if rc != 0:
+        return False, [], out[-1500:]
+    parsed = common.parse_eval(out)
+    vals = [int(x) for x in __import__('re').findall(r'-?\d+', parsed[0])] if parsed else []
+    if len(vals) != 3 * len(blocks):
+        return False, [], f'expected {3 * len(blocks)} numbers, got {len(vals)}'
+    bad = []
+    for i, blk in enumerate(blocks):
+        steps, depth, unmodelled = vals[3 * i: 3 * i + 3]
+        if unmodelled:
+            continue
+        want = (steps if recursive else 1, depth)
+        if impl[i] != want:
+            bad.append({'block_hex': bytes(blk).hex()[:200], 'implementation_calls_depth': impl[i], 'model_steps_depth': (steps, depth)})
+    return True, bad, ''
+
+
+# ------------------------------------------------------------------------------- time against size
+
+
+def timing_shapes(c):
+    """message shapes whose size can be scaled: name -> f(size) -> body"""
+    rng = random.Random(7)
+
+    def attr_heavy(size):
+        n = (size - 4) // 3
+        return update([B().add(bytes([0x80, 0xFE, 0]) * n)]).b
+
+    def attr_heavy_transitive(size):
+        n = (size - 4) // 7
+        return update([B().add(b''.join(bytes([0xC0, 100 + (i % 100), 4, 1, 2, 3, 4]) for i in range(n)))]).b
+
+    def nlri_heavy(size):
+        n = (size - 40) // 4
+        return update(mandatory(rng, c), nlri=[B().add(bytes([24, 10, i >> 8 & 0xFF, i & 0xFF])) for i in range(n)]).b
+
+    def withdraw_heavy(size):
+        n = (size - 8) // 2
+        return update([], wd=[B().add(bytes([8, i & 0xFF])) for i in range(n)]).b
+
+    def community_heavy(size):
+        n = (size - 60) // 4
+        return update(mandatory(rng, c) + [attr(0xC0, 8, b''.join(struct.pack('!HH', 65000, i & 0xFFFF) for i in range(n)))], nlri=[B().add(bytes([8, 10]))]).b
+
+    def aspath_heavy(size):
+        segs = (size - 60) // (2 + 4 * 255)
+        asp = b''.join(bytes([2, 255]) + struct.pack('!L', 65000) * 255 for _ in range(max(1, segs)))
+        return update([attr(0x40, 1, b'\x00'), attr(0x40, 2, asp), attr(0x40, 3, bytes([10, 0, 0, 1]))], nlri=[B().add(bytes([8, 10]))]).b
+
+    def mp_heavy(size):
+        n = (size - 80) // 9
+        nl = b''.join(bytes([64, 0x20, 1, 0xd, 0xb8, 0, 0, i >> 8 & 0xFF, i & 0xFF]) for i in range(n))
+        val = struct.pack('!HBB', 2, 1, 16) + bytes([0x20, 1, 0xd, 0xb8] + [0] * 11 + [1]) + b'\x00' + nl
+        return update(mandatory(rng, c, nh=False) + [attr(0x80, 14, val)]).b
+
+    return {'attribute-heavy': attr_heavy, 'transitive-attribute-heavy': attr_heavy_transitive, 'nlri-heavy': nlri_heavy,
+            'withdraw-heavy': withdraw_heavy, 'community-heavy': community_heavy, 'as-path-heavy': aspath_heavy, 'mp-nlri-heavy': mp_heavy}
+
+
+def decode_time(body, c, reps):
+    """best-of-reps wall time of Message.unpack + Update.data + one pass over the routes"""
+    from exabgp.bgp.message import Message
+
+    best = None
+    for _ in range(reps):
+        reset_caches()
+        t0 = time.perf_counter()
+        m = Message.unpack(2, body, c.neg)
+        if not getattr(m, 'IS_EOR', False):
+            d = m.data
+            for r in d.announces:
+                pass
+            for r in d.withdraws:
+                pass
+        dt = time.perf_counter() - t0
+        best = dt if best is None or dt < best else best
+    return best
+
+
+def measure_time(tier):
+    """-> (table, findings) table: shape -> {size: seconds}; a shape is super-linear when doubling the size from 16k
+    to 32k to 64k multiplies the time by clearly more than two, twice in a row (best-of-N timings, generous margin)"""
+    c = ctx('ext-all')
+    sizes = [1000, 2000, 4000, 8000, 16000, 32000, 64000]
+    reps = 5 if tier == 'quick' else 15
+    table, findings = {}, []
+    for name, f in timing_shapes(c).items():
+        row = {}
+        err = None
+        for size in sizes:
+            body = bytes(f(size))
+            try:
+                row[size] = decode_time(body, c, reps)
+            except Exception as exc:  # noqa: BLE001 - reported by the outcome oracle, not here
+                err = f'{type(exc).__name__} at {len(body)} octets'
+                break
+        table[name] = {'seconds': {str(k): round(v, 6) for k, v in row.items()}, 'stopped': err}
+        if err is None and row[64000] > 0.02:
+            r1 = row[32000] / max(row[16000], 1e-9)
+            r2 = row[64000] / max(row[32000], 1e-9)
+            table[name]['ratio_32k_16k'] = round(r1, 2)
+            table[name]['ratio_64k_32k'] = round(r2, 2)
+            if r1 > 3.0 and r2 > 3.0:
+                findings.append((name, row, r1, r2))
+    return table, findings
+
+
+# ------------------------------------------------------------------------------- oracle, shrinking, check
+
+
+def exc_name(o):
+    return o[2]
+
+
+def judge(case, o):
+    """the property on one observation -> (sig, what) or None"""
+    T = tname(case['ty'])
+    if o[0] == 'X':
+        stage = o[1]
+        sig = f'exception:{T}:{o[2]}' + ('' if stage == 'unpack' else f':{stage}')
+        return sig, f'{T} body raises {o[2]} ({o[3]}) at stage {stage} instead of being decoded or refused with a NOTIFICATION'
+    if o[0] == 'T':
+        return f'wedged:{T}', f'{T} body not decoded within {o[1]} s'
+    if o[0] == 'N':
+        if not defined_code(o[1], o[2]):
+            if case['klass'] == 'valid':
+                return f'valid-refused:{case["what"]}', f'valid {T} ({case["what"]}) refused with NOTIFICATION {o[1]}/{o[2]}, a subcode no RFC defines'
+            return f'undefined-notify:{T}:{o[1]}/{o[2]}', f'{T} body refused with NOTIFICATION {o[1]}/{o[2]}, which no RFC defines'
+        if case['klass'] == 'valid':
+            return f'valid-refused:{case["what"]}', f'valid {T} ({case["what"]}) refused with NOTIFICATION {o[1]}/{o[2]}'
+    return None
+
+
+def judge_read(case, o, ribin, api):
+    """the property on what escapes Protocol.read_message -> (sig, what) or None"""
+    T = tname(case['ty'])
+    if o[0] == 'X':
+        return f'exception:{T}:{o[2]}:read_message', f'{o[2]} ({o[3]}) escapes Protocol.read_message for a {T}'
+    if o[0] == 'N':
+        if o[1:3] == (1, 0) and 'can not decode update message' in o[3]:
+            inner = observe(case['ty'], case['body'], ctx(case['ctx']))
+            cls = inner[2] if inner[0] == 'X' else 'unknown'
+            return f'laundered-exception:{T}:{cls}', f'Protocol.read_message turned {cls} raised by the {T} decoder into NOTIFICATION 1/0'
+        if not defined_code(o[1], o[2]):
+            if case['klass'] == 'valid':
+                return f'valid-refused:{case["what"]}', f'valid {T} ({case["what"]}) refused with NOTIFICATION {o[1]}/{o[2]} by Protocol.read_message'
+            return f'undefined-notify:{T}:{o[1]}/{o[2]}', f'Protocol.read_message answers a {T} with NOTIFICATION {o[1]}/{o[2]}, which no RFC defines'
+        if case['klass'] == 'valid':
+            return f'valid-refused:{case["what"]}', f'valid {T} ({case["what"]}) refused with NOTIFICATION {o[1]}/{o[2]} by Protocol.read_message'
+    return None
+
+
+def walk_tlvs(block):
+    """attribute TLVs of a well-framed block -> list of bytes, or None"""
+    out, i = [], 0
+    while i < len(block):
+        if i + 3 > len(block):
+            return None
+        ext = block[i] & 0x10
+        if ext and i + 4 > len(block):
+            return None
+        ln = int.from_bytes(block[i + 2:i + 4], 'big') if ext else block[i + 2]
+        end = i + (4 if ext else 3) + ln
+        if end > len(block):
+            return None
+        out.append(block[i:end])
+        i = end
+    return out
+
+
+def shrink(case, sig, fails):
+    """smaller case with the same signature: fewer repeated attributes, then whole sections / attributes dropped"""
+    cur = dict(case)
+    if case.get('shape') == 'unk3':
+        lo, hi = 0, case['n']
+        while hi - lo > 1:
+            mid = (lo + hi) // 2
+            body = bytes(update([B().add(bytes([0x80, case['code'], 0]) * mid)]).b)
+            if fails(dict(case, body=body, n=mid)):
+                hi = mid
+            else:
+                lo = mid
+        return dict(case, body=bytes(update([B().add(bytes([0x80, case['code'], 0]) * hi)]).b), n=hi)
+    if case['ty'] != 2 or len(case['body']) < 4:
+        return cur
+    b = case['body']
+    lw = int.from_bytes(b[0:2], 'big')
+    if 4 + lw > len(b):
+        return cur
+    la = int.from_bytes(b[2 + lw:4 + lw], 'big')
+    if 4 + lw + la > len(b):
+        return cur
+    wd, blk, nl = b[2:2 + lw], b[4 + lw:4 + lw + la], b[4 + lw + la:]
+    tlvs = walk_tlvs(blk)
+    if tlvs is None:
+        return cur
+
+    def build(wd, tlvs, nl):
+        blk = b''.join(tlvs)
+        return struct.pack('!H', len(wd)) + wd + struct.pack('!H', len(blk)) + blk + nl
+
+    for cand in ((b'', tlvs, nl), (wd, tlvs, b''), (b'', tlvs, b'')):
+        c2 = dict(cur, body=build(*cand))
+        if len(c2['body']) < len(cur['body']) and fails(c2):
+            cur, (wd, tlvs, nl) = c2, cand
+    changed = True
+    while changed and len(tlvs) > 1:
+        changed = False
+        for i in range(len(tlvs)):
+            t2 = tlvs[:i] + tlvs[i + 1:]
+            c2 = dict(cur, body=build(wd, t2, nl))
+            if fails(c2):
+                cur, tlvs, changed = c2, t2, True
+                break
+    return cur
+
+
+def describe(case, o, entry='Message.unpack + forcing every lazy part', **kw):
+    d = {
+        'entry_point': entry,
+        'message_type': case['ty'],
+        'body_hex': case['body'].hex() if len(case['body']) <= 6000 else case['body'][:6000].hex() + '...',
+        'body_octets': len(case['body']),
+        'negotiated': ctx(case['ctx']).params,
+        'generated_as': f'{case["klass"]}/{case["what"]}',
+        'observed': list(o),
+    }
+    if case.get('n') is not None:
+        d['repeat_count'] = case['n']
+    d.update(kw)
+    return d
+
+
+class Watchdog:
+    """a decode that does not end is a finding, not a hung check"""
+
+    def __init__(self, seconds):
+        self.seconds = seconds
+
+    def __enter__(self):
+        import signal
+
+        def fire(signum, frame):
+            raise TimeoutError(f'no result after {self.seconds} s')
+
+        self.old = signal.signal(signal.SIGALRM, fire)
+        signal.setitimer(signal.ITIMER_REAL, self.seconds)
+
+    def __exit__(self, *a):
+        import signal
+
+        signal.setitimer(signal.ITIMER_REAL, 0)
+        signal.signal(signal.SIGALRM, self.old)
+
+
+def guarded(f, *a):
+    try:
+        with Watchdog(20):
+            return f(*a)
+    except TimeoutError:
+        return ('T', 20)
+
+
+def check(tier, seed):
+    run = Run('C03', tier, seed)
+    run.trusted = [
+        'Coq 8.16.1 kernel (coqc), vm_compute for case evaluation; no native_compute',
+        'translator translate/t12_parse_shape.py (python ast of AttributeCollection.parse: recursive or loop, header sizes, '
+        'overrun test; reflection of the attribute / operational registries and size constants), fail-closed',
+        'harness/c03.py: generators (wire formats written from the RFCs), the RFC table of defined (code, subcode), '
+        'the forcing of lazy parts, the scripted socket under Protocol.read_message (harness/c06.py FakeSock/FakeLoop), '
+        'the parse() call counter, best-of-N timings',
+        'modelled, not verified: UpdateCollection.split, AttributeCollection.parse, INET.unpack_nlri (ipv4 unicast), '
+        'Open.unpack_message / Capabilities.unpack framing, Notification / KeepAlive / RouteRefresh / Operational '
+        'unpack_message (hand model Model_Robust); capability value decoders taken from Model_Open.parse_cap (C07)',
+        'NOT modelled (theorems hold for every value decoder that keeps the stated contract; the Python decoders are only '
+        'exercised, by the generated cases): the value decoders of registered attributes other than ORIGIN, MED, LOCAL_PREF, '
+        'ATOMIC_AGGREGATE, ORIGINATOR_ID; every MP NLRI decoder; AS_PATH / AS4_PATH merge; the API encoders',
+    ]
+    run.assumptions = [
+        'the body handed to Message.unpack is at most the negotiated message size minus 19 (the reader enforces it: C06)',
+        'every observation starts without the previous-UPDATE attribute cache (history dependence is C19)',
+        'wall-clock linearity is measured (best of N on a shared machine), only the step count of the model is proved',
+    ]
+    pc = common.standard_build(run, ['T12'])
+    from translate import t12_parse_shape
+
+    try:
+        sh = t12_parse_shape.shape(common.REPO)
+        recursive = sh['recursive']
+    except Exception:  # noqa: BLE001 - already reported as the translator obligation
+        sh, recursive = None, True
+    run.obligation(
+        'C03_bounded_depth in full: the attribute walk is a loop (Gen_ParseShape.PARSE_IS_RECURSIVE = false), so '
+        'C03_bounded_depth_partial applies to the tree under check',
+        sh is not None and not recursive,
+        'AttributeCollection.parse calls itself once per attribute: C03_bounded_depth_refuted / C03_recursion_crash apply '
+        '(n unknown optional attributes need n+1 Python frames)',
+    )
+
+    rng = random.Random(seed)
+    t0 = time.time()
+    valid = gen_valid(rng, tier)
+    boundary = gen_boundary(rng, tier)
+    rand = gen_random(rng, tier)
+    deep = gen_deep(rng, tier)
+    corrupted = []
+    for base in valid:
+        if base['marks'] or base['ty'] != 2 or len(base['body']) <= 80:
+            corrupted += corrupt(rng, base, tier)
+    if tier == 'quick' and len(corrupted) > 5000:
+        corrupted = rng.sample(corrupted, 5000)
+    cases = valid + boundary + rand + deep + corrupted
+    t_gen = time.time() - t0
+
+    # ---- implementation: Message.unpack + forcing
+    t0 = time.time()
+    outs = [guarded(observe, c['ty'], c['body'], ctx(c['ctx'])) for c in cases]
+    t_impl = time.time() - t0
+    failing = {}
+    for i, (c, o) in enumerate(zip(cases, outs)):
+        j = judge(c, o)
+        if j:
+            failing.setdefault(j[0], []).append((i, j[1]))
+    # ---- OPEN: the negotiation that follows a decoded OPEN
+    neg_cases = [c for c, o in zip(cases, outs) if c['ty'] == 1 and o[0] == 'D']
+    ms = ctx('ms-few')
+    neg_fail = {}
+    n_neg = 0
+    for c in neg_cases:
+        for cx in (ctx(c['ctx']), ms):
+            o = guarded(observe_negotiation, c['body'], cx)
+            n_neg += 1
+            if o and o[0] == 'X':
+                sig = f'exception:OPEN:{o[2]}:negotiate'
+                neg_fail.setdefault(sig, []).append((c, cx, o))
+    # ---- Protocol.read_message on framed messages
+    t0 = time.time()
+    combos = [(True, ''), (False, ''), (True, 'parsed'), (False, 'parsed'), (True, 'consolidate'), (False, 'packets')]
+    read_idx = [i for i, c in enumerate(cases) if len(c['body']) + 19 <= ctx(c['ctx']).msg_size]
+    if tier == 'quick':
+        keep = [i for i in read_idx if cases[i]['klass'] == 'valid']
+        rest = [i for i in read_idx if cases[i]['klass'] != 'valid']
+        read_idx = keep + rng.sample(rest, min(len(rest), 1800))
+    read_fail = {}
+    read_dist = collections.Counter()
+    for k, i in enumerate(read_idx):
+        c = cases[i]
+        ribin, api = combos[k % len(combos)]
+        o = guarded(observe_read_message, c['ty'], c['body'], c['ctx'], ribin, api)
+        read_dist[(f'adj-rib-in={ribin}', api or 'no-consumer', o[0])] += 1
+        j = judge_read(c, o, ribin, api)
+        if j:
+            read_fail.setdefault(j[0], []).append((i, j[1], o, ribin, api))
+    t_read = time.time() - t0
+
+    # ---- model: outcome class of Model_Robust on the modelled bodies
+    t0 = time.time()
+    midx = [i for i, c in enumerate(cases) if c['model'] and (len(c['body']) <= 700 or c.get('shape') == 'unk3')
+            and not (c.get('shape') == 'unk3' and 700 < c['n'] < 1000)]
+    if tier == 'quick' and len(midx) > 4000:
+        must = [i for i in midx if cases[i]['klass'] in ('valid', 'valid-framing')]
+        rest = [i for i in midx if cases[i]['klass'] not in ('valid', 'valid-framing')]
+        midx = must + rng.sample(rest, 4000 - len(must))
+    mcases = [cases[i] for i in midx]
+    mouts = [outs[i] for i in midx]
+    m_ok, verdicts, mlogs = evaluate_model(run, mcases, mouts, 'c03_m')
+    differs = [midx[k] for k, v in enumerate(verdicts) if v == 1]
+    skipped = sum(1 for v in verdicts if v == 2)
+    compared = sum(1 for v in verdicts if v == 0) + len(differs)
+    # steps / depth
+    blocks = []
+    unk = unknown_codes()
+    for n in (0, 1, 2, 10, 100, 250):
+        blocks.append(bytes([0x80, unk[0], 0]) * n)
+    for c in mcases:
+        if c['ty'] == 2 and c['klass'] in ('valid-framing', 'random') and len(blocks) < (60 if tier == 'quick' else 400) and len(c['body']) >= 4:
+            b = c['body']
+            lw = int.from_bytes(b[0:2], 'big')
+            if 4 + lw <= len(b):
+                la = int.from_bytes(b[2 + lw:4 + lw], 'big')
+                if 4 + lw + la <= len(b) and la:
+                    blocks.append(b[4 + lw:4 + lw + la])
+    s_ok, s_bad, s_log = shape_correspondence(run, blocks, recursive)
+    t_model = time.time() - t0
+    run.obligation('model evaluation (vm_compute of Model_Robust.dec_message / walk on every modelled case) ran', m_ok and s_ok, ('\n'.join(mlogs) + s_log)[-2500:])
+    run.obligation(
+        f'correspondence: outcome class (and code/subcode, NOTIFICATION / REFRESH / OPERATIONAL tag) of the implementation = '
+        f'Model_Robust.dec_message on {compared} bodies ({skipped} more reach an unmodelled value decoder and are not compared)',
+        not differs,
+        f'{len(differs)} disagreements, first: '
+        + (str(describe(cases[differs[0]], outs[differs[0]], model_says='differs')) if differs else ''),
+    )
+    run.obligation(
+        f'correspondence: calls and deepest nesting of AttributeCollection.parse = steps / depth of Model_Robust.walk on {len(blocks)} attribute blocks',
+        s_ok and not s_bad, str(s_bad[:2]),
+    )
+
+    # ---- the property oracle
+    n_obs = len(cases) + n_neg + len(read_idx)
+    all_sigs = sorted(set(failing) | set(neg_fail) | set(read_fail))
+    run.obligation(
+        f'property oracle: {len(cases)} bodies through Message.unpack + forcing, {n_neg} OPEN negotiations, {len(read_idx)} framed '
+        f'messages through Protocol.read_message: decoded, or NOTIFICATION with an RFC-defined (code, subcode); nothing else; valid messages decoded',
+        not all_sigs,
+        f'{len(all_sigs)} distinct failures: {all_sigs[:12]}',
+    )
+
+    def fails_with(sig):
+        def pred(c):
+            j = judge(c, guarded(observe, c['ty'], c['body'], ctx(c['ctx'])))
+            return bool(j) and j[0] == sig
+
+        return pred
+
+    for sig, lst in sorted(failing.items()):
+        lst.sort(key=lambda e: len(cases[e[0]]['body']))
+        i, what = lst[0]
+        small = shrink(cases[i], sig, fails_with(sig))
+        o = guarded(observe, small['ty'], small['body'], ctx(small['ctx']))
+        run.fail_case(sig, what, describe(small, o, cases_with_this_signature=len(lst)))
+    for sig, lst in sorted(neg_fail.items()):
+        lst.sort(key=lambda e: len(e[0]['body']))
+        c, cx, o = lst[0]
+        d = describe(c, o, entry='Message.unpack(OPEN) then Negotiated.sent / received / validate (what Protocol.read_open and Peer do next)',
+                     cases_with_this_signature=len(lst))
+        d['negotiated'] = cx.params
+        run.fail_case(sig, f'the negotiation of a decodable peer OPEN raises {o[2]} ({o[3]})' if o[0] == 'X' else
+                      f'negotiation refuses with NOTIFICATION {o[1]}/{o[2]}, which no RFC defines', d)
+    for sig, lst in sorted(read_fail.items()):
+        if sig in failing and not sig.startswith('valid-refused'):
+            continue
+        lst.sort(key=lambda e: len(cases[e[0]]['body']))
+        i, what, o, ribin, api = lst[0]
+        c = cases[i]
+        if sig.startswith('laundered-exception:'):
+            inner = 'exception:' + sig.split(':', 1)[1]
+            small = shrink(c, inner, fails_with(inner)) if inner in failing else c
+        else:
+            small = c
+        o2 = guarded(observe_read_message, small['ty'], small['body'], small['ctx'], ribin, api)
+        run.fail_case(sig, what, describe(small, o2, entry='Protocol.read_message on a scripted socket', adj_rib_in=ribin,
+                                          api_consumer=api or None, cases_with_this_signature=len(lst)))
+
+    # ---- time against size
+    t0 = time.time()
+    table, slow = measure_time(tier)
+    t_time = time.time() - t0
+    run.obligation(
+        'decode time grows linearly with the message size (1k..64k octets, seven attribute- and NLRI-heavy shapes, best of N)',
+        not slow, '; '.join(f'{n}: x{r1:.1f} then x{r2:.1f} per doubling' for n, _, r1, r2 in slow),
+    )
+    for name, row, r1, r2 in slow:
+        run.fail_case(f'superlinear:{name}', f'decode time of the {name} UPDATE shape grows x{r1:.1f} (16k->32k) and x{r2:.1f} (32k->64k) per doubling of the size',
+                      {'shape': name, 'seconds_by_size': {str(k): round(v, 6) for k, v in row.items()}, 'negotiated': ctx('ext-all').params})
+
+    # ---- coverage
+    dist = collections.Counter((c['klass'], tname(c['ty']) if c['ty'] in TYPE_NAME else 'unknown-type') for c in cases)
+    outd = collections.Counter((tname(c['ty']) if c['ty'] in TYPE_NAME else 'unknown-type',
+                                'decoded' if o[0] == 'D' else f'notify {o[1]}/{o[2]}' if o[0] == 'N' else f'raised {o[2]}' if o[0] == 'X' else 'timeout')
+                               for c, o in zip(cases, outs))
+    sizes = collections.Counter(min(len(c['body']) // 500 * 500, 8000) for c in cases)
+    distinct = len({(c['ty'], c['body'], c['ctx']) for c in cases if len(c['body']) >= 4})
+    threshold = None
+    if recursive:
+        lo, hi = 100, 1400
+        cx = ctx('as4-all')
+        while hi - lo > 1:
+            mid = (lo + hi) // 2
+            o = observe(2, bytes(update([B().add(bytes([0x80, 0xFE, 0]) * mid)]).b), cx)
+            lo, hi = (lo, mid) if o[0] == 'X' else (mid, hi)
+        threshold = hi
+    run.coverage.update({
+        'evaluations': n_obs,
+        'distinct_nontrivial': distinct,
+        'rule': 'every message type (OPEN, UPDATE, NOTIFICATION, KEEPALIVE, ROUTE-REFRESH, OPERATIONAL, unknown types) under 5(+1) '
+                'negotiated parameter sets (asn4 on/off, ADD-PATH on/off, all / two families, 4096 / 65535): valid unusual messages '
+                '(1..21000 unknown optional attributes, maximal sizes, every recognised attribute, thousands of NLRI, every capability, '
+                'hundreds of capabilities, RFC 9072 parameters), every registered attribute at boundary lengths, structured corruptions '
+                '(every length field -1/+1/0/max, bit flips of flags / types / masks, truncation at every offset, deletions / insertions), '
+                'nested TLV material for MP_REACH/MP_UNREACH of every family and for the structured optional attributes, random bytes; '
+                'non-trivial = distinct (type, body, parameter set) with a body of at least 4 octets',
+        'distribution': {f'{k}/{t}': v for (k, t), v in sorted(dist.items())},
+        'outcomes': {f'{t}: {o}': v for (t, o), v in sorted(outd.items())},
+        'body_size_histogram': {str(k): v for k, v in sorted(sizes.items())},
+        'read_message': {'/'.join(k): v for k, v in sorted(read_dist.items())},
+        'model': {'compared': compared, 'not_modelled': skipped, 'attribute_blocks_for_steps_depth': len(blocks)},
+        'walk_shape': sh,
+        'recursion_threshold_attributes': threshold,
+        'decode_seconds_by_size': table,
+        'timing_s': {'generation': round(t_gen, 1), 'implementation': round(t_impl, 1), 'read_message': round(t_read, 1),
+                     'coq_evaluation': round(t_model, 1), 'timing_measurement': round(t_time, 1)},
+        'exhaustive': False,
+    })
+    for c, o in list(zip(cases, outs))[:: max(1, len(cases) // 6)][:6]:
+        run.samples.append({'type': c['ty'], 'ctx': c['ctx'], 'generated_as': f'{c["klass"]}/{c["what"]}', 'body_hex': c['body'].hex()[:120], 'observed': str(o)[:120]})
+    print(f'[C03] cases {len(cases)} impl {t_impl:.1f}s read_message {t_read:.1f}s coq {t_model:.1f}s timing {t_time:.1f}s', flush=True)
+    if run.broken() and not run.failing:
+        run.coverage['search'] = (f'{n_obs} observations of the real decoders were judged by the RFC table; none failed')
+    return run.finish(checker_cmd='make -C coq props/Prop_C03.vo && coqc -Q coq ExaV coq/props/Prop_C03.v (Print Assumptions)')
